@@ -5,7 +5,8 @@ transcript, and no valid-input case may abort (debug checks)."""
 import itertools, json, os, random
 import common
 from common import *
-import props_map, props_sub, props_acc, props_pool, props_arr
+import props_map, props_sub, props_acc, props_pool, props_arr, props_conv, props_dbg
+from progdrv import run_programs
 from props_map import finish_common
 
 AXES = {
@@ -56,7 +57,58 @@ FAMILIES = [
     ("A", "element access forms", lambda rep, tier, seed, exe, rp: props_acc.collect(rep, "C15", tier, seed, exe, rp), False),
     ("P", "view construction / copy / move / assign / swap / conversion", lambda rep, tier, seed, exe, rp: props_pool.collect(rep, "C15", tier, seed, exe, rp), False),
     ("R", "mdarray", lambda rep, tier, seed, exe, rp: props_arr.collect(rep, "C15", tier, seed, exe, rp), False),
+    ("V", "mapping conversions (valid inputs of every converting constructor, incl. layout_stride -> left / right with canonical strides) and comparisons",
+     lambda rep, tier, seed, exe, rp: props_conv.collect(rep, "C15", tier, seed, exe, rp), False),
 ]
+
+
+def collect_debug_valid(rep, tier, seed, exe, cfgs, replay=None):
+    """valid inputs aimed at the debug-mode checks: layout_stride -> layout_left / layout_right conversions with exactly
+    the canonical strides, ranks 0..4, all index-type pairs, in the cells built with assertions: none may abort"""
+    rng = random.Random(seed * 32452843 + 7)
+    progs, cases, hist = props_dbg.gen(rng, tier)
+    keep = [c for c in cases if not c[2]["wrong"]]
+    if replay:
+        rp = json.load(open(replay))
+        keep = [c for c in keep if c[1][1:] == rp["case_tokens"][1:]] or keep[:1]
+    used = {id(c[0]) for c in keep}
+    progs = [p for p in progs if id(p) in used]
+    for k, p in enumerate(progs):
+        p.id = k
+    for c in keep:
+        c[1][0] = c[0].id
+    work = os.path.join(CACHE, "work", "C15-%s-dbgvalid" % tier)
+    records, build_fail = run_programs("K", "drv_dbg.hpp", progs, keep, cfgs, work, exe, nshards=16, name="dbgv")
+    for (sh_, cfg, blog) in {c: (s_, c, l) for (s_, c, l) in reversed(build_fail)}.values():
+        rep.violation("debug-check driver shard %d no longer builds in configuration %s" % (sh_, cfg),
+                      {"obligation": "corr:dbgv/build/%d/%s" % (sh_, cfg), "log": blog[-3000:], "signature": "build:dbgv:%s" % cfg}, True)
+    evaluations, flagged, nontriv = 0, [], set()
+    for r in records:
+        for cfg in cfgs:
+            if r["impl"].get(cfg) is None:
+                continue
+            evaluations += 1
+            if "crash" in r and cfg in r["crash"]:
+                flagged.append((r, cfg))
+        if r["meta"]["rank"] >= 2:
+            nontriv.add(tuple(str(x) for x in r["toks"][1:]))
+    flagged.sort(key=lambda x: len(x[0]["toks"]))
+    seen = set()
+    for r, cfg in flagged:
+        key = (r["meta"]["left"], cfg)
+        if key in seen:
+            continue
+        seen.add(key)
+        m = r["meta"]
+        rep.violation("in configuration %s a debug-mode check fired on a valid input: layout_stride -> %s conversion of extents %s with the canonical strides %s terminated (status %s)"
+                      % (cfg, "layout_left" if m["left"] else "layout_right", m["es"], m["ss"], r["crash"][cfg]["rc"]),
+                      {"family": "K", "config": cfg, "program": r["prog"].desc, "call": r["prog"].call, "case_tokens": r["toks"], "meta": m, "model_line": r["model_line"],
+                       "crash": r["crash"][cfg], "signature": "K-valid:%s" % r["prog"].desc}, no_failing_input=False)
+        if len(seen) >= 4:
+            break
+    return {"family": "K", "evaluations": evaluations, "distinct_nontrivial": len(nontriv), "programs": len(progs) * len(cfgs), "configurations": cfgs,
+            "disagreements_checked": len(flagged), "input_distribution": {"debug-valid " + k: v for k, v in hist.items() if "canonical" in k or k.startswith("rank")},
+            "rule": "debug-check stream: canonical-stride layout_stride -> left/right conversions (ranks 0..4, all index-type pairs) in the assertion cells", "samples": [], "exhaustive": False}
 
 
 def run_property(prop, tier, seed, replay=None):
@@ -89,6 +141,9 @@ def run_property(prop, tier, seed, replay=None):
             cov = fn(rep, tier, seed, exe, replay if fam_only else None)
             cov["family"] = fam
             covs.append(cov)
+        if not fam_only or fam_only == "K":
+            dbg_cfgs = [n for n, c in zip(names, chosen) if c[4] and c[1] != "14"] or [n for n, c in zip(names, chosen) if c[1] != "14"][:1]
+            covs.append(collect_debug_valid(rep, tier, seed, exe, dbg_cfgs, replay if fam_only == "K" else None))
     finally:
         common.CFG_OVERRIDE = None
         common.SCALE = 1.0
